@@ -141,7 +141,7 @@ def _call(args):
         return ("harness", f"worker crashed on {short(item)}: {e!r}\n{traceback.format_exc()}")
 
 
-def pmap(fn, items, nproc=None, chunksize=1):
+def pmap(fn, items, nproc=None, chunksize=1, fresh=False):
     """run fn(item) -> Acc for every item on a fork pool; returns merged Acc.
 
     items are evaluated completely (no early exit); merge order = item order,
@@ -156,7 +156,9 @@ def pmap(fn, items, nproc=None, chunksize=1):
         results = [_call((name, it)) for it in items]
     else:
         ctx = multiprocessing.get_context("fork")
-        with ctx.Pool(min(n, len(items))) as pool:
+        # fresh=True: every item runs in a process forked from THIS one just for it (no state carried over from the item a
+        # pooled worker happened to run before -- needed where a later item replays choices recorded by an earlier one)
+        with ctx.Pool(min(n, len(items)), maxtasksperchild=1 if fresh else None) as pool:
             results = pool.map(_call, [(name, it) for it in items], chunksize)
     for status, val in results:
         if status != "ok":
